@@ -161,9 +161,8 @@ macro_rules! tail_sections {
 fn run_typed<L: Lit + 'static>(fmt: &str, mode: &str, src: SchedSource, chunk: usize) -> RunObs {
     let d = || src.0.borrow().log.len();
     let mut reader = DeferredReader::from_read(src.clone());
-    if chunk < crate::eng_cnf::CTOR_BOXED {
-        reader.set_chunk_size(chunk);
-    }
+    let total = src.0.borrow().data.len();
+    crate::eng_cnf::prepare_reader(&mut reader, chunk, total);
     let stream = mode == "stream";
     let mut items: Vec<(String, usize)> = vec![];
     if fmt == "aag" {
@@ -796,8 +795,18 @@ pub fn run_case(line: &str) -> (String, Vec<String>) {
     let mut base = run_parser(&c.fmt, &c.ty, &c.mode, mk(scheds[0].1.clone()), scheds[0].2);
     let base_text = base.text(false);
     let mut variant_note = String::new();
+    let free: Option<RunObs> = if fault { Some(run_parser(&c.fmt, &c.ty, &c.mode, SchedSource::new(c.data.clone(), false, vec![]), 16384)) } else { None };
     for (name, ev, chunk) in scheds.iter().skip(1) {
         let o = run_parser(&c.fmt, &c.ty, &c.mode, mk(ev.clone()), *chunk).text(false);
+        if fault && name.starts_with("sniff") {
+            if o.ends_with("E:panic") {
+                fails.push(format!("C05:parser panicked under schedule {}", name));
+            }
+            if c.mode != "parse" {
+                fails.extend(crate::eng_cnf::fault_variant_oracle(&format!("|VARIANT:{}={}", name, o), &free.as_ref().unwrap().text(false)));
+            }
+            continue;
+        }
         if o != base_text {
             fails.push(format!("C01:result depends on the read schedule: one-shot={} {}={}", clip(&base_text), name, clip(&o)));
             variant_note = format!("|VARIANT:{}={}", name, o.chars().take(160).collect::<String>());
@@ -829,7 +838,10 @@ pub fn run_case(line: &str) -> (String, Vec<String>) {
     }
     // ---- C04: a failing source ends in an I/O error (or the fault-free run's own syntax error)
     if fault {
-        let free = run_parser(&c.fmt, &c.ty, &c.mode, SchedSource::new(c.data.clone(), false, vec![]), 16384);
+        let free = free.unwrap();
+        if c.mode != "parse" {
+            fails.extend(crate::eng_cnf::fault_variant_oracle(&variant_note, &free.text(false)));
+        }
         let n = base.items.len();
         let prefix_ok = (0..n).all(|i| i < free.items.len() && free.items[i].0 == base.items[i].0);
         if base.fin == "END" {
